@@ -449,6 +449,84 @@ func runC20(w *World) {
 				okAny = why == ""
 			}
 			report("accounts", !okAny, "c20-accounts-wrong-after-"+at, "image %d (%s): loaded accounts match none of the legal states %d..%d (%s)", i, img.Desc, lo, hi, why)
+			// recovery continues: the restarted server must be able to go on updating what the crash left behind
+			// (every account edited to a shorter record, one renamed), and a second restart must load exactly that
+			if okAny {
+				want := map[string]acctModel{}
+				accs := am.List()
+				sort.Slice(accs, func(a, b int) bool { return accs[a].Login < accs[b].Login })
+				failed := ""
+				for k, a := range accs {
+					m := acctModel{Name: "s", Pw: ""}
+					for l, st := range acctStates {
+						_ = l
+						if sm, ok := st[a.Login]; ok && checkPw(a.Password, sm.Pw) {
+							m.Pw = sm.Pw
+						}
+					}
+					a.Name = "s"
+					a.Access = hotline.AccessBitmap{}
+					nl := a.Login
+					if k == 0 {
+						nl = "rc-" + a.Login
+					}
+					if err := am.Update(a, nl); err != nil {
+						failed = fmt.Sprintf("Update(%q -> %q): %v", a.Login, nl, err)
+						break
+					}
+					want[nl] = m
+				}
+				if failed == "" {
+					am2, err := mobius.NewYAMLAccountManager(filepath.Join(imgDir, "Users/"))
+					if err != nil {
+						failed = fmt.Sprintf("second restart: NewYAMLAccountManager: %v", err)
+					} else if d := acctStateDiff(am2.List(), want, checkPw); d != "" {
+						failed = "second restart: " + d
+					}
+				}
+				w.Probe("fault_recovery_continued")
+				report("accounts-continue", failed != "", "c20-accounts-update-after-recovery-"+at, "image %d (%s): after restarting from this image and editing every account: %s", i, img.Desc, failed)
+			}
+		}
+		// the same for the other stores: one more update after recovery, then a second restart
+		if bf2, err := mobius.NewBanFile(filepath.Join(imgDir, "Banlist.yaml")); err == nil {
+			failed := ""
+			if err := bf2.Add("9.9.9.9", nil); err != nil {
+				failed = fmt.Sprintf("Add: %v", err)
+			} else if bf3, err := mobius.NewBanFile(filepath.Join(imgDir, "Banlist.yaml")); err != nil {
+				failed = fmt.Sprintf("second restart: NewBanFile: %v", err)
+			} else if banned, until := bf3.IsBanned("9.9.9.9"); !banned || until != nil {
+				failed = "second restart: the ban added after recovery is missing"
+			}
+			report("bans-continue", failed != "", "c20-bans-update-after-recovery-"+at, "image %d (%s): after restarting from this image and banning one more address: %s", i, img.Desc, failed)
+		}
+		if fn2, err := mobius.NewFlatNews(filepath.Join(imgDir, "MessageBoard.txt")); err == nil {
+			buf := make([]byte, 4<<20)
+			k, _ := fn2.Read(buf)
+			before := string(buf[:k])
+			failed := ""
+			if _, err := fn2.Write([]byte("p\r")); err != nil {
+				failed = fmt.Sprintf("Write: %v", err)
+			} else if fn3, err := mobius.NewFlatNews(filepath.Join(imgDir, "MessageBoard.txt")); err != nil {
+				failed = fmt.Sprintf("second restart: NewFlatNews: %v", err)
+			} else {
+				k, _ := fn3.Read(buf)
+				if string(buf[:k]) != "p\r"+before {
+					failed = fmt.Sprintf("second restart: board has %d bytes, want the new post followed by the %d bytes recovered", k, len(before))
+				}
+			}
+			report("board-continue", failed != "", "c20-board-update-after-recovery-"+at, "image %d (%s): after restarting from this image and posting once more: %s", i, img.Desc, failed)
+		}
+		if tn2, err := mobius.NewThreadedNewsYAML(filepath.Join(imgDir, "ThreadedNews.yaml")); err == nil {
+			failed := ""
+			if err := tn2.CreateGrouping(nil, "rc", hotline.NewsCategory); err != nil {
+				failed = fmt.Sprintf("CreateGrouping: %v", err)
+			} else if tn3, err := mobius.NewThreadedNewsYAML(filepath.Join(imgDir, "ThreadedNews.yaml")); err != nil {
+				failed = fmt.Sprintf("second restart: NewThreadedNewsYAML: %v", err)
+			} else if _, ok := tn3.ThreadedNews.Categories["rc"]; !ok || len(tn3.ThreadedNews.Categories) != len(tn2.ThreadedNews.Categories) {
+				failed = "second restart: the category created after recovery is missing or others vanished"
+			}
+			report("news-continue", failed != "", "c20-news-update-after-recovery-"+at, "image %d (%s): after restarting from this image and creating a category: %s", i, img.Desc, failed)
 		}
 	}
 	_ = os.RemoveAll(imgDir)
